@@ -331,6 +331,13 @@ def _generate_task_from_yield(tasks, func_name, task_dict, gen_doc):
             task_dict['actions'] = None
             group_task = dict_to_task(task_dict)
             group_task.has_subtask = True
+            previous = tasks.get(basename)
+            if previous is not None:
+                if not previous.has_subtask:
+                    raise InvalidTask(msg_dup % (func_name, basename))
+                # group defined after (some of) its sub-tasks: keep them
+                group_task.task_dep.extend(previous.task_dep)
+                group_task.subtask_of = previous.subtask_of
             tasks[basename] = group_task
             return
         if not isinstance(task_dict['name'], str):
@@ -395,6 +402,10 @@ def generate_tasks(func_name, gen_result, gen_doc=None):
         # the generator return subtasks as dictionaries
         for task_dict, x_doc in flat_generator(gen_result, gen_doc):
             if isinstance(task_dict, Task):
+                if task_dict.name in tasks:
+                    msg = ("Task generation '%s' has duplicated definition "
+                           "of '%s'")
+                    raise InvalidTask(msg % (func_name, task_dict.name))
                 tasks[task_dict.name] = task_dict
             else:
                 _generate_task_from_yield(tasks, func_name, task_dict, x_doc)
